@@ -286,6 +286,9 @@ def c09(F, R):
         e3_io.read_rules(F, R, v)
         e3_io.recv_rules(F, R, v)
     e3_io.window_rules(F, R)
+    # "nothing lost on retry / no corrupt stream" rests on the same framing contract as C07/C08: a prefix of a message is InsufficientSize
+    # (recv keeps reading), and validate accepts exactly the bytes the view covers (the guard consumes size() <= occupied bytes)
+    framing_rules(F, R)
     e9_witness.witness_rules(F, R)
 
 
@@ -384,6 +387,7 @@ def c12(F, R):
     e7_containers.flex_size(F, R)
     e7_containers.flex_validator(F, R)
     e7_containers.empty_emplacers(F, R)
+    e6_generated.generated_rules(F, R, {"init"})  # in-place edits of items: a refused re-initialisation of an item keeps the item (tag after gate)
     e2_guards.guard_rules(F, R, FLEX_ROOTS, "flexapi", 50)
     e9_witness.witness_rules(F, R)
     FOUNDATION(F, R)
